@@ -210,7 +210,7 @@ func runRound(c roundCfg) (fs []tmon.Finding, nFut int, stats map[string]int64, 
 
 func nRounds(run *report.Run) int {
 	if os.Getenv("VERIF_PASS") == "asynctimerchan" {
-		return 800
+		return run.Pick(200, 800)
 	}
 	return run.Pick(640, 24000)
 }
